@@ -178,7 +178,7 @@ def run(ctx):
         if tool == "add_type_annotation" and "__ERROR" in s["annotation"]:
             sig = f"{tool}: the emitted annotation contains the internal error-type text `__ERROR(…)`"
         ctx.violation(sig, detail, cli_cmd=cmd + " > out.gdn; garden check out.gdn; garden run out.gdn")
-        ctx.outcome(f"{tool}:{d.split(':')[0]}")
+        ctx.outcome(f"{tool}:{d.split(':')[0].split(' (')[0]}")
     # CLI confirmation (up to 12)
     for sig, v in list(ctx.violations.items())[:12]:
         d = v["detail"]
